@@ -215,6 +215,24 @@ Proof.
 Qed.
 Print Assumptions C04_pedantic_text_refuted.
 
+(* K2: a var-positional parameter that is not spelled *args: def f( *xs: int); f(1) is rejected by the keyword test *)
+Theorem C04_varpos_spelling_refuted : exists f c bd,
+  c04_call_ok ctx0 f c = true /\ c04_result_ok ctx0 f (bd [] []) = true
+  /\ run1 ctx0 f c bd = (Raise PCallWithArgsC, []) /\ fst (twin f c bd) = Ok one.
+Proof.
+  exists f_varpos_xs, (poscall [] [one] []), (returns one). repeat split; reflexivity.
+Qed.
+Print Assumptions C04_varpos_spelling_refuted.
+
+(* static / class methods are called with the keyword arguments only: the values for *args never reach the body *)
+Theorem C04_star_elements_dropped_refuted : exists f c bd,
+  c04_call_ok ctx0 f c = true /\ c04_result_ok ctx0 f (bd [] []) = true
+  /\ snd (run1 ctx0 f c bd) = [([(args_, BStar [])], [])] /\ snd (twin f c bd) = [([(args_, BStar [SArg 0])], [])].
+Proof.
+  exists s_varargs, (poscall [] [one] []), (returns one). repeat split; reflexivity.
+Qed.
+Print Assumptions C04_star_elements_dropped_refuted.
+
 (* observation outside the domain of C04 (the call passes a declared parameter positionally, which functions with
    *args allow): def f(a: int, *args: str); f(1, 'x') raises PedanticTypeCheckException, because _check_types_args
    checks every element of self.args - the leading 1 included - against the annotation of *args *)
